@@ -34,7 +34,8 @@
 From AQ Require Import Lib.Bytes Lib.Keccak Rlp.RlpSpec Trie.MptSpec Bloom.BloomModel
   Import.ImportModel Import.ImportProofs Import.DeriveShaCode Import.DeriveShaProofs.
 From AQ Require Trie.TrieModel State.StateSpec State.StateModel.
-From AQ Require Import Import.ImportC09.
+From AQ Require Import Import.ImportC09 Import.ImportRel Import.ImportTx Import.ImportTxProofs.
+From Coq Require Import Permutation.
 Local Open Scope N_scope.
 
 (* 1. a block is accepted iff the transactions all apply and every commitment of the
@@ -247,4 +248,127 @@ Proof.
   vm_compute.
   split; [reflexivity|]. split; [reflexivity|]. split; [reflexivity|]. split; [reflexivity|].
   split; [reflexivity|]. split; [reflexivity|]. split; reflexivity.
+Qed.
+
+(* ================================================================================================
+   The composed model (Import/ImportTx.v): the execution layer is C06's state transition
+   (Tx/Transition.v) and the state root is the C10 specification root of the account listing.
+   Remaining parameters = primitives: H (Keccak), run (the EVM interpreter below the depth-0
+   shell), decode_tx (RLP decoding + sender recovery: the signature oracle), logs_of (the logs a
+   successful execution emitted).  Vocabulary: same_map s1 s2 = two listings of the same finite
+   map of accounts; ok_order o = o feeds the accounts to the trie in some permutation;
+   run_respects run = the interpreter sees the state as a finite map; logs_respect likewise.
+   ================================================================================================ *)
+
+(* composed 1: a block is accepted iff re-executing its transactions with C06's transition on the
+   parent state gives the header's gas used, bloom, receipt root and state root (and the body
+   commitments hold) — no premise at all *)
+Theorem C01_composed_accept_iff :
+  forall (H : bytes -> bytes) (cfg : Transition.chain_cfg) (dealloc : list Transition.addr) (run : Transition.runner)
+         (decode_tx : bytes -> option Transition.message) (logs_of : exec_env -> N -> Transition.state -> Transition.message -> list log)
+         (o : O) (s : Transition.state) (b : block) (r : results Transition.state),
+  import_block_tx H cfg dealloc run decode_tx logs_of o s b = Accepted Transition.state r <->
+  exists p, process_tx H cfg dealloc run decode_tx logs_of o s b = Some p /\
+    h_uncle_hash (b_header b) = calc_uncle_hash H (b_uncles b) /\
+    h_tx_hash (b_header b) = derive_sha H (b_txs b) /\
+    h_gas_used (b_header b) = p_used Transition.state p /\
+    h_bloom (b_header b) = receipts_bloom H (p_receipts Transition.state p) /\
+    h_receipt_hash (b_header b) = receipts_root H (p_receipts Transition.state p) /\
+    h_root (b_header b) = tx_state_root H o (p_state Transition.state p) /\
+    r = mkRes Transition.state (p_state Transition.state p) (p_receipts Transition.state p) (p_used Transition.state p) (tx_state_root H o (p_state Transition.state p)).
+Proof. exact composed_accept_iff. Qed.
+Print Assumptions C01_composed_accept_iff.
+
+(* ... where that re-execution IS Tx.Transition.process on the decoded messages (adapter: if C06's
+   model is swapped for an interpreter-free one, only this lemma is re-proved) *)
+Theorem C01_composed_process_is_tx_process :
+  forall (H : bytes -> bytes) (cfg : Transition.chain_cfg) (dealloc : list Transition.addr) (run : Transition.runner)
+         (decode_tx : bytes -> option Transition.message) (logs_of : exec_env -> N -> Transition.state -> Transition.message -> list log)
+         (o : O) (s : Transition.state) (b : block) (msgs : list Transition.message),
+  Forall2 (fun tx m => decode_tx tx = Some m) (b_txs b) msgs ->
+  h_gas_limit (b_header b) <= Transition.max_u64 ->
+  match process_tx H cfg dealloc run decode_tx logs_of o s b,
+        Transition.process cfg dealloc run s (hdr_of_env (env_of (b_header b))) msgs (map uncle_of (b_uncles b)) with
+  | Some p, Transition.BlockOk s' rs used =>
+      p_state Transition.state p = s' /\ p_used Transition.state p = used /\ Forall2 (rcpt_rel H o) (p_receipts Transition.state p) rs
+  | None, Transition.BlockErr _ _ => True
+  | None, Transition.BlockPanic => True
+  | _, _ => False
+  end.
+Proof. exact process_adapter. Qed.
+Print Assumptions C01_composed_process_is_tx_process.
+
+(* composed 2a: the state root does not depend on the order in which the accounts are listed or
+   fed to the trie (Go map iteration in Commit); primitive premise: the account-key hash does not
+   collide on addresses *)
+Theorem C01_composed_root_order_independent :
+  forall (H : bytes -> bytes), (forall a b : Transition.addr, acct_key H a = acct_key H b -> a = b) ->
+  forall (o1 o2 : O) (s1 s2 : Transition.state), ok_order o1 -> ok_order o2 -> same_map s1 s2 ->
+  tx_state_root H o1 s1 = tx_state_root H o2 s2.
+Proof. exact tx_state_root_same. Qed.
+Print Assumptions C01_composed_root_order_independent.
+
+(* composed 2b: the premise of theorems 3 and 4 (relational form) holds of the composed model:
+   C06's layer (pre-checks, gas purchase, nonce, Call/Create shells, refund, fee, Finalise,
+   hard-fork mutations, rewards) and the root are discharged; what remains is the interpreter *)
+Theorem C01_composed_premise_discharged :
+  forall (H : bytes -> bytes) (cfg : Transition.chain_cfg) (dealloc : list Transition.addr) (run : Transition.runner)
+         (decode_tx : bytes -> option Transition.message) (logs_of : exec_env -> N -> Transition.state -> Transition.message -> list log),
+  (forall a b : Transition.addr, acct_key H a = acct_key H b -> a = b) -> run_respects run -> logs_respect logs_of ->
+  exec_respects_rel Transition.state O (tx_apply_msg H cfg run decode_tx logs_of) (tx_block_start cfg dealloc)
+                    tx_finalize (tx_state_root H) same_map ok_order.
+Proof. exact composed_respects. Qed.
+Print Assumptions C01_composed_premise_discharged.
+
+(* composed 2c: two nodes importing the same block on the same parent state — held as any two
+   listings, committed in any two orders — reach the same verdict, receipts, gas, root and
+   post-state map *)
+Theorem C01_composed_import_deterministic :
+  forall (H : bytes -> bytes) (cfg : Transition.chain_cfg) (dealloc : list Transition.addr) (run : Transition.runner)
+         (decode_tx : bytes -> option Transition.message) (logs_of : exec_env -> N -> Transition.state -> Transition.message -> list log),
+  (forall a b : Transition.addr, acct_key H a = acct_key H b -> a = b) -> run_respects run -> logs_respect logs_of ->
+  forall (o1 o2 : O) (s1 s2 : Transition.state) (b : block), ok_order o1 -> ok_order o2 -> same_map s1 s2 ->
+  import_rel Transition.state same_map
+    (import_block_tx H cfg dealloc run decode_tx logs_of o1 s1 b)
+    (import_block_tx H cfg dealloc run decode_tx logs_of o2 s2 b).
+Proof. exact composed_import_deterministic. Qed.
+Print Assumptions C01_composed_import_deterministic.
+
+(* composed 3: mined_block_is_valid — for every sequence of candidate transactions the worker
+   tries (whatever order the price/nonce heap hands them out; undecodable, inapplicable and failing
+   ones are skipped, the loop stops when the pool is below TxGas), every uncle list and every parent
+   state, the block commitNewWork assembles is accepted by import on any node holding the same map *)
+Theorem C01_mined_block_is_valid :
+  forall (H : bytes -> bytes) (cfg : Transition.chain_cfg) (dealloc : list Transition.addr) (run : Transition.runner)
+         (decode_tx : bytes -> option Transition.message) (logs_of : exec_env -> N -> Transition.state -> Transition.message -> list log),
+  (forall a b : Transition.addr, acct_key H a = acct_key H b -> a = b) -> run_respects run -> logs_respect logs_of ->
+  forall (tx_gas : N) (o1 o2 : O) (s1 s2 : Transition.state) (tmpl : header) (cands : list bytes) (uncles : list header)
+         (b : block) (r : results Transition.state),
+  ok_order o1 -> ok_order o2 -> same_map s1 s2 -> h_bloom tmpl = 0 ->
+  build_block_tx H cfg dealloc run decode_tx logs_of tx_gas o1 s1 tmpl cands uncles = (b, r) ->
+  exists r', import_block_tx H cfg dealloc run decode_tx logs_of o2 s2 b = Accepted Transition.state r' /\
+             res_rel Transition.state same_map r r'.
+Proof. exact composed_mined_block_is_valid. Qed.
+Print Assumptions C01_mined_block_is_valid.
+
+(* non-vacuity of the composed statements (Gallina Keccak): an interpreter and a log function that
+   meet the premises; two different listings of one map (one with a shadowed duplicate); the
+   builder keeps 2 of 4 candidates (one undecodable, one overdrawn); the block built on the first
+   listing with one commit order is accepted on the second listing with the reversed order, with
+   the same root *)
+Example C01_composed_example :
+  run_respects ex_run /\ logs_respect ex_logs /\ same_map ex_state1 ex_state2 /\
+  ok_order (fun s => s) /\ ok_order (@rev _) /\
+  let tmpl := template (be_fixed 32 7) (be_fixed 20 9) 1 1 8000000 10 [] in
+  let '(b, r) := build_block_tx keccak256 ex_cfg [] ex_run ex_decode ex_logs 21000 (fun s => s) ex_state1 tmpl
+                                [[x01; x03; x05]; [x09]; [x02; x01; x09]; [x01; x02; x01]] [] in
+  length (b_txs b) = 2%nat /\
+  match import_block_tx keccak256 ex_cfg [] ex_run ex_decode ex_logs (@rev _) ex_state2 b with
+  | Accepted _ r' => res_root Transition.state r' = res_root Transition.state r /\ res_used Transition.state r' = 44000
+  | Rejected _ _ => False
+  end.
+Proof.
+  split; [exact ex_run_respects|]. split; [exact ex_logs_respect|]. split; [exact ex_same|].
+  split; [exact ok_order_id|]. split; [exact ok_order_rev|].
+  vm_compute. split; [reflexivity|]. split; reflexivity.
 Qed.
